@@ -22,26 +22,26 @@ def inserted (cmp : K → K → Int) (s : SL K V) (key : K) (val : V) (ht : Nat)
   { s with lv := insTop cmp key (newHeight s ht) s.lv, vals := (key, val) :: s.vals,
            level := if ht > s.level then s.level + 1 else s.level, len := s.len + 1 }
 
-theorem setH_found (cfg : Cfg K V) (hc : TotalCmp cfg.cmp) {s : SL K V} (h : Inv cfg.cmp s)
-    {key : K} (hk : key ∈ chain0 s) (val : V) (mode ht : Nat) :
+theorem setH_found (cfg : Cfg K V) (hc : WeakCmp cfg.cmp) {s : SL K V} (h : Inv cfg.cmp s)
+    {key n : K} (hk : findEq cfg.cmp key (chain0 s) = some n) (val : V) (mode ht : Nat) :
     s.setH cfg key val mode ht =
-      if mode = 2 then some (s, false) else some ({ s with vals := setVal s.vals key val }, true) := by
-  obtain ⟨ls, h1, h2, h3, _, _⟩ := h.search_prep key
+      if mode = 2 then some (s, false) else some ({ s with vals := setVal s.vals n val }, true) := by
+  obtain ⟨ls, h1, h2, h3, _, _⟩ := h.search_prep hc key
   unfold SL.setH
   simp only [lazy_noop h, h1]
   rw [setLoop_spec hc key ls none [] h2 (fun l _ c hcn => by cases hcn)]
-  simp only [h3, hk, decide_true, if_true]
+  simp only [h3, hk]
   by_cases hm : mode = 2 <;> simp [hm]
 
-theorem setH_absent (cfg : Cfg K V) (hc : TotalCmp cfg.cmp) {s : SL K V} (h : Inv cfg.cmp s)
-    {key : K} (hk : key ∉ chain0 s) (val : V) (mode ht : Nat) (hht : ht ≤ maxLevel) :
+theorem setH_absent (cfg : Cfg K V) (hc : WeakCmp cfg.cmp) {s : SL K V} (h : Inv cfg.cmp s)
+    {key : K} (hk : findEq cfg.cmp key (chain0 s) = none) (val : V) (mode ht : Nat) (hht : ht ≤ maxLevel) :
     s.setH cfg key val mode ht =
       if mode = 1 then some (s, false) else some (inserted cfg.cmp s key val ht, true) := by
-  obtain ⟨ls, h1, h2, h3, h4, _⟩ := h.search_prep key
+  obtain ⟨ls, h1, h2, h3, h4, _⟩ := h.search_prep hc key
   unfold SL.setH
   simp only [lazy_noop h, h1]
   rw [setLoop_spec hc key ls none [] h2 (fun l _ c hcn => by cases hcn)]
-  simp only [h3, hk, decide_false, Bool.false_eq_true, if_false, h4, List.append_nil]
+  simp only [h3, hk, h4, List.append_nil]
   by_cases hm : mode = 1
   · simp [hm]
   · have hm' : (mode == 1) = false := by simp [hm]
